@@ -355,7 +355,15 @@ func (c *Conn) execOne() {
 	if i > 0 {
 		e.Probe("exec-out-of-order")
 	}
+	nlog := len(e.C.Execs)
 	resp := e.C.Execute(req)
+	for _, x := range e.C.Execs[nlog:] {
+		for _, fc := range hb.FatalClasses {
+			if x.Err == fc {
+				c.Death = append(c.Death, "server sent fatal class "+fc)
+			}
+		}
+	}
 	e.Ev("c%d X call=%d %s -> %d", c.N, req.CallID, req.Method, len(resp))
 	if resp == nil {
 		return
